@@ -4,8 +4,7 @@
 (*  (a) a party outside the output set returns the empty vector;           *)
 (*  (b) once a party has finished input processing (a garbler: its input   *)
 (*      labels are sent; the evaluator: it holds the input labels of all   *)
-(*      garblers) every message sent to it is output opening material and  *)
-(*      the party is in the output set;                                     *)
+(*      garblers) it is sent something only if it is in the output set;    *)
 (*  (c) output opening material ("output wire shares", "lambda") is only   *)
 (*      ever sent to output parties and carries values only for output     *)
 (*      registers.                                                          *)
@@ -31,11 +30,11 @@ Bad ==
     (IF r.kind = "ok" /\ ~InPo(r.p) /\ r.out # << >>
      THEN "non-output party obtained a result" ELSE "")
   ELSE IF IsSendDone THEN
-    IF ipdone[r.q] /\ ~Opening(r.ph)
-      THEN "message after input processing that is not output opening: " \o r.ph
-    ELSE IF (ipdone[r.q] \/ Opening(r.ph)) /\ ~InPo(r.q)
+    \* (a message of another kind to an OUTPUT party after input processing is not forbidden by the property; it is
+    \*  reported by the conformance check against Skeleton as drift)
+    IF (ipdone[r.q] \/ Opening(r.ph)) /\ ~InPo(r.q)
       THEN "non-output party is sent " \o r.ph
-    ELSE IF Opening(r.ph) /\ ~(SomeSet \subseteq cur.outregs)
+    ELSE IF (Opening(r.ph) \/ (ipdone[r.q] /\ Has(r, "some"))) /\ ~(SomeSet \subseteq cur.outregs)
       THEN "opening material for a register that is not an output: " \o r.ph
     ELSE ""
   ELSE ""
